@@ -392,3 +392,24 @@ Proof.
   pose proof (exec_top_ok t o w H) as H1. destruct (exec t o w) as [[x t1] w1]. cbn in H1.
   specialize (IH t1 w1 H1). destruct (exec_all t1 r w1) as [[xs t2] w2]. cbn in *. exact IH.
 Qed.
+
+(* ---------- reloading the configuration (mount-index / chunk-server --store-file, SIGHUP) ---------- *)
+
+(* mountIndexStore = MultiStoreWithCache; chunkServerStore (read-only) = DedupQueue around it.  Neither is ever a
+   WriteStore: multiStoreWithRouter ALWAYS wraps the configured locations in a StoreRouter, also a single one. *)
+Definition mount_index_store := multi_store_with_cache.
+
+Lemma msc_not_writable cache repair ls : writable (multi_store_with_cache cache repair ls) = false.
+Proof. unfold multi_store_with_cache, multi_store_with_router. destruct cache; reflexivity. Qed.
+
+(* hence SwapStore.Swap never refuses a reload, whatever the old and the new configuration are, and afterwards
+   the installed chain is exactly the one built from the new configuration *)
+Lemma cli_reload_accepted (served : bool) cache repair ls (new : stack) w :
+  let old := if served then Dedup (multi_store_with_cache cache repair ls) else mount_index_store cache repair ls in
+  let t := {| t_mode := MSwapRO; t_cur := old |} in
+  fst (fst (exec t (OSwap new) w)) = RSwap true /\ t_cur (snd (fst (exec t (OSwap new) w))) = new.
+Proof.
+  intros old t. unfold exec. cbn [t_mode t_cur t].
+  assert (Hw : writable old = false) by (unfold old; destruct served; [reflexivity|apply msc_not_writable]).
+  rewrite Hw. cbn. destruct (sclose (sem old) w). cbn. auto.
+Qed.
